@@ -30,7 +30,7 @@ Print Assumptions c03_every_env_site_has_a_settled_row.
     known_findings/C03.json with a replayable witness). *)
 Theorem c03_findings_of_the_table :
   nodup string_dec (finding_ids known_env_sites) =
-  ["C03-ttl-eviction-wallclock-default"; "C03-random-eviction-set-order"; "C03-dirty-key-set-order"; "C03-cms-builtin-hash"].
+  ["C03-ttl-eviction-wallclock-default"].
 Proof. vm_compute. reflexivity. Qed.
 Print Assumptions c03_findings_of_the_table.
 
